@@ -38,7 +38,13 @@ CHECKS["C14"] = ("limits", "exploration",
    "Trusted: harness, verif_hooks accessors (data/heap length, meter). Stack need is bracketed (push peak .. max length + 2) because the twin observes only between instructions; with build-time (meta) instructions only a huge stack limit is required to change nothing. Resumption of an interrupted program is measured, not required.",
    "DESIGN.md §5 C14")
 
-PENDING = {k: "check under construction in this session (claimed in DESIGN.md); listed here only until its engine lands" for k in ["C03","C04","C06","C08","C10"]}
+CHECKS["C10"] = ("reject", "exploration",
+   "deterministic simulation with fault injection (crash consistency of the build pipeline): the build is killed at a chosen token by one of ~57 failing-token kinds, including instruction/stack limits armed to trip inside a meta block; victim/control twins re-executed from boot; state-shape oracle right after the rejection and twin equality after every follow-up probe; thorough tier enumerates every cut position x every failing kind per sampled base program",
+   "Quick: seeded sampling of (history, base program, cut position, failing kind, trailing text, submission styles eval / compile+run, probes). Thorough: for half of the sampled base programs every token position x every failing kind is enumerated. Checks: right after the rejection the data stack, mode, nesting, pending flows and pending inputs are what they were; every later probe returns the same result and leaves the same visible stack, variables and output as on a control that never saw the rejected source; a source that fails at run time is not re-executed by later lines (literal probes push exactly their literal, print nothing).",
+   "Trusted: harness, verif_hooks dump. Name-space discipline: the rejected source, the history and the probes use disjoint names, so whether completed definitions of a rejected source survive is not observed. Output printed by meta blocks that completed before the rejection is not counted against it. Effects of user-defined immediate words executed at build time are a listed known finding.",
+   "DESIGN.md §5 C10")
+
+PENDING = {k: "check under construction in this session (claimed in DESIGN.md); listed here only until its engine lands" for k in ["C03","C04","C06","C08"]}
 
 def main():
     checks = []
